@@ -19,6 +19,21 @@ immediately takes the "done" branch and leaves (or becomes the finisher), and la
 start one bin above their range. Strides can therefore be skipped or overlap by one bin; what
 makes this harmless is the finisher's re-sweep, which is part of the model.
 
+NOTE on joining (finding F6): the two ways of joining a running resize are modelled access by
+access, because the order of their loads matters.
+* `help_transfer` holds `(table, next_table)` of the generation in which it met a forwarding
+  marker (`heldGen`), *validates* them against `self.table` / `self.next_table`, and only then
+  loads `size_ctl`. Its refusal test compares the loaded word with the stamp of `heldGen`.
+  `checkGen` says whether that test contains the comparison of the generation stamps
+  (`Props/C10Arith.help_refuses_other_generation` proves that the code's test does); without it
+  a word of another generation is refused only by accident (`cnt` is neither 1 nor `maxResizers`
+  *of the same generation*), and the helper joins a resize it holds no tables of.
+* `add_count` loads `size_ctl` first, then `self.table` (`heldGen` = the generation of the table
+  it got), `next_table`, `transfer_index`, and CASes on the word it loaded first.
+A join with `heldGen ≠ gen` is counted in `staleJoins` and the thread is dropped from the model
+(what it does next is outside the protocol); `Lemmas/Resize*` prove `staleJoins = 0` for
+`checkGen = true`, and `Lemmas/ResizeExamples` exhibit the stale join for `checkGen = false`.
+
 Definitions only; theorems are in `Flurry/Lemmas/Resize*.lean` and `Props/C10.lean`. -/
 namespace Flurry.Proto.Resize
 
@@ -36,7 +51,22 @@ inductive Pc where
   | swapNext
   /-- about to `transfer_index.store(n)` -/
   | storeIndex
-  /-- help_transfer / add_count: loaded a resizing `sc`, about to check + CAS `sc → sc + 1` -/
+  /-- help_transfer: holds a table (generation `heldGen`) with a forwarded bin and that table's
+  next table; about to load `self.next_table` and compare -/
+  | helpCheckNext
+  /-- help_transfer: `next_table == self.next_table` held; about to load `self.table` and compare -/
+  | helpCheckTable
+  /-- help_transfer: validated `(table, next_table)`, about to load `size_ctl` -/
+  | helpLoadSc
+  /-- help_transfer: loaded `sc`, passed the refusal test, about to load `transfer_index` -/
+  | helpLoadIndex (sc : SC)
+  /-- add_count: loaded a resizing `sc`, about to load `self.table` -/
+  | acLoadTable (sc : SC)
+  /-- add_count: loaded the table (`heldGen`), passed the refusal test, about to load `next_table` -/
+  | acLoadNext (sc : SC)
+  /-- add_count: about to load `transfer_index` -/
+  | acLoadIndex (sc : SC)
+  /-- help_transfer / add_count: about to CAS `sc → sc + 1` -/
   | casJoin (sc : SC)
   /-- top of the claim loop (`while advance`): about to load `transfer_index` -/
   | claimLoad
@@ -64,6 +94,8 @@ structure Local where
   bound : Int := 0
   advance : Bool := true
   finishing : Bool := false
+  /-- generation of the table this thread holds while it tries to join -/
+  heldGen : Nat := 0
 deriving Repr
 
 structure State where
@@ -82,13 +114,30 @@ structure State where
   published : List Nat := []
   threads : List Local
   stride : Nat := 16
+  /-- does `help_transfer` compare the generation stamps? (from the code, see the NOTE above) -/
+  checkGen : Bool := true
+  /-- `MAX_RESIZERS` -/
+  maxResizers : Nat := 2 ^ 32 - 1
+  /-- joins of a resize by a thread holding the tables of another generation -/
+  staleJoins : Nat := 0
 deriving Repr
 
 def threshold (n : Nat) : Nat := n - n / 4
 
-def init (n nthreads stride : Nat) : State :=
+def init (n nthreads stride : Nat) (checkGen : Bool := true) : State :=
   { n := n, sizeCtl := .idle (threshold n), moved := List.replicate n false,
-    migrations := List.replicate n 0, threads := List.replicate nthreads {}, stride := stride }
+    migrations := List.replicate n 0, threads := List.replicate nthreads {}, stride := stride,
+    checkGen := checkGen }
+
+/-- the refusal test of `help_transfer` on a loaded word, for a helper holding generation `held`:
+`(sc >> SHIFT) != (rs >> SHIFT) || sc == rs + MAX_RESIZERS || sc == rs + 1`, where the
+generation comparison is present iff `checkGen` -/
+def helpRefuses (checkGen : Bool) (maxR : Nat) (g c held : Nat) : Bool :=
+  (checkGen && g != held) || (g == held && (c == maxR || c == 1))
+
+/-- the refusal test of `add_count`: `sc == rs + MAX_RESIZERS || sc == rs + 1` with `rs` of the
+table it loaded -/
+def acRefuses (maxR : Nat) (g c held : Nat) : Bool := g == held && (c == maxR || c == 1)
 
 def setT (s : State) (t : Nat) (l : Local) : State := { s with threads := s.threads.set t l }
 
@@ -97,7 +146,8 @@ def bumpPublished (p : List Nat) (g : Nat) : List Nat :=
 
 /-- one step of thread `t`. `choice` resolves the nondeterminism of an idle thread:
 `0` = stay idle, `1` = try to initiate a resize (it "saw" `count ≥ size_ctl` or wants to presize),
-`2` = try to help. Returns `none` if `t` is not a thread. -/
+`2` = `add_count` sees a resizing word and tries to join, `3` = `help_transfer` (the thread met a
+forwarding marker of the current table). Returns `none` if `t` is not a thread. -/
 def step (s : State) (t : Nat) (choice : Nat) : Option State :=
   match s.threads[t]? with
   | none => none
@@ -107,12 +157,11 @@ def step (s : State) (t : Nat) (choice : Nat) : Option State :=
     | .idle =>
       match choice, s.sizeCtl with
       | 1, .idle thr => some (upd { l with pc := .casInit (.idle thr) })
-      | 2, .resizing g c =>
-        -- joiners refuse when the word says "finishing" (cnt = 1), when no next table is
-        -- visible, or when nothing is left to claim
-        if g == s.gen && c != 1 && s.nextTable && s.transferIndex > 0
-        then some (upd { l with pc := .casJoin (.resizing g c) })
-        else some s
+      | 2, .resizing g c => some (upd { l with pc := .acLoadTable (.resizing g c) })
+      | 3, _ =>
+        -- the thread holds the current table, met a forwarding marker in it (so its resize has
+        -- installed the next table) and took the next table from there
+        if s.nextTable then some (upd { l with pc := .helpCheckNext, heldGen := s.gen }) else some s
       | _, _ => some s
     | .casInit sc =>
       if s.sizeCtl == sc then
@@ -123,12 +172,45 @@ def step (s : State) (t : Nat) (choice : Nat) : Option State :=
     | .storeIndex =>
       some { (upd { l with pc := .claimLoad, advance := true, finishing := false, i := 0, bound := 0 })
                with transferIndex := s.n }
+    | .helpCheckNext =>
+      -- `next_table == self.next_table`: true iff the resize of the held table is still running
+      -- and has not cleared `next_table` yet
+      if s.nextTable && l.heldGen == s.gen then some (upd { l with pc := .helpCheckTable })
+      else some (upd { l with pc := .idle })
+    | .helpCheckTable =>
+      -- `table == self.table`
+      if l.heldGen == s.gen then some (upd { l with pc := .helpLoadSc }) else some (upd { l with pc := .idle })
+    | .helpLoadSc =>
+      match s.sizeCtl with
+      | .idle _ => some (upd { l with pc := .idle })                      -- `sc >= 0`
+      | .resizing g c =>
+        if helpRefuses s.checkGen s.maxResizers g c l.heldGen then some (upd { l with pc := .idle })
+        else some (upd { l with pc := .helpLoadIndex (.resizing g c) })
+    | .helpLoadIndex sc =>
+      if s.transferIndex <= 0 then some (upd { l with pc := .idle })
+      else some (upd { l with pc := .casJoin sc })
+    | .acLoadTable sc =>
+      match sc with
+      | .idle _ => some (upd { l with pc := .idle })
+      | .resizing g c =>
+        if acRefuses s.maxResizers g c s.gen then some (upd { l with pc := .idle, heldGen := s.gen })
+        else some (upd { l with pc := .acLoadNext sc, heldGen := s.gen })
+    | .acLoadNext sc =>
+      if s.nextTable then some (upd { l with pc := .acLoadIndex sc }) else some (upd { l with pc := .idle })
+    | .acLoadIndex sc =>
+      if s.transferIndex <= 0 then some (upd { l with pc := .idle })
+      else some (upd { l with pc := .casJoin sc })
     | .casJoin sc =>
       if s.sizeCtl == sc then
         match sc with
         | .resizing g c =>
-          some { (upd { l with pc := .claimLoad, advance := true, finishing := false, i := 0, bound := 0 })
-                   with sizeCtl := .resizing g (c + 1) }
+          if l.heldGen == s.gen then
+            some { (upd { l with pc := .claimLoad, advance := true, finishing := false, i := 0, bound := 0 })
+                     with sizeCtl := .resizing g (c + 1) }
+          else
+            -- a thread holding the tables of another generation has been admitted (F6): the
+            -- word is incremented on behalf of nobody the protocol knows
+            some { (upd { l with pc := .idle }) with sizeCtl := .resizing g (c + 1), staleJoins := s.staleJoins + 1 }
         | .idle _ => some (upd { l with pc := .idle })
       else some (upd { l with pc := .idle })
     | .claimLoad =>
@@ -180,8 +262,9 @@ def step (s : State) (t : Nat) (choice : Nat) : Option State :=
       -- `(n << 1) - (n >> 1)` with the *old* n = three quarters of the new length
       some { (upd { l with pc := .idle, finishing := false }) with sizeCtl := .idle (threshold s.n) }
 
+/-- reachable with the generation comparison in place (the code as it is) -/
 inductive Reachable (n nthreads stride : Nat) : State → Prop
-  | init : Reachable n nthreads stride (init n nthreads stride)
+  | init : Reachable n nthreads stride (init n nthreads stride true)
   | step {s s' : State} (t choice : Nat) :
       Reachable n nthreads stride s → step s t choice = some s' → Reachable n nthreads stride s'
 
